@@ -119,6 +119,27 @@ def clusterFetches (n : Nat) (idem : Bool) (pageFaultLetters : List (List Char))
 def clusterAttempts (n : Nat) (idem : Bool) (pageFaultLetters : List (List Char)) : List Pager.Attempt :=
   pageFaults ((clusterFetches n idem pageFaultLetters).map Fetch.trace)
 
+/-- `kill` cases of the harness: before its `m`-th request (0-based, the first request of a new fetch, the
+producer being quiescent) the node that served the last page is stopped - from that fetch on its pool
+refuses every `get_connection()` (`Target.never`). The killed node and the first page fetched after the
+kill are read off the all-available run, which is identical up to there. -/
+def killedFetches (n : Nat) (idem : Bool) (pageFaultLetters : List (List Char)) (m : Nat) : List Fetch :=
+  let fs0 := clusterFetches n idem pageFaultLetters
+  let att0 := pageFaults (fs0.map Fetch.trace)
+  let nodes0 := (fs0.map Fetch.nodes).flatten
+  let served := (List.range (min m att0.length)).filter fun i => att0.getD i .retry == .ok
+  match served.getLast? with
+  | none => fs0
+  | some i =>
+    let x := nodes0.getD i 0
+    let q := served.length           -- pages served before the kill = index of the first page fetched after it
+    fetches .default idem .localQuorum none
+      (pageFaultLetters.zipIdx.map fun (cs, j) =>
+        (List.range n, (fun node => if j ≥ q && node == x then Target.never else Target.always), outcomesOf cs))
+
+def killedAttempts (n : Nat) (idem : Bool) (pageFaultLetters : List (List Char)) (m : Nat) : List Pager.Attempt :=
+  pageFaults ((killedFetches n idem pageFaultLetters m).map Fetch.trace)
+
 /-- One page fetch of that family on its own (first page). -/
 def clusterFetch (n : Nat) (idem : Bool) (cs : List Char) : Trace :=
   Exec.run .default idem .localQuorum ((List.range n).map fun _ => Target.always) (outcomesOf cs)
